@@ -629,6 +629,21 @@ def macroref(g, thorough, count):
         except RefRefused:
             ref = None
         out.append((head + libtxt + "\n" + body + "\nhlt\n", ref))
+    # every register name, in both cases, in every operand role a macro can put it
+    lib = [("u1", ["p"], "push p pop p"), ("u2", ["p"], "inc p"), ("u3", ["p", "q"], "mov p, q"), ("u4", ["p"], "mov p, ax"), ("u5", ["p"], "mov ax, p"),
+           ("u6", ["p"], "xchg p, bx"), ("u7", ["p"], "mov word [bx], p"), ("u8", ["p"], "mov cl, p")]
+    libtxt = "\n".join(f"macro {n}({','.join(ps)}) -> {b} <-" for n, ps, b in lib)
+    regs = "ax bx cx dx si di bp sp al ah bl bh cl ch dl dh es ds ss cs".split()
+    for rg in regs:
+        for spelled in (rg, rg.upper()):
+            for use in (f"u1({spelled})", f"u2({spelled})", f"u3({spelled}, {spelled})", f"u4({spelled})", f"u5({spelled})", f"u6({spelled})",
+                        f"u7({spelled})", f"u8({spelled})"):
+                body = "start:\nlab:\n" + use
+                try:
+                    ref = "wv: dw 1\n" + ref_expand(body, lib) + "\nhlt\n"
+                except RefRefused:
+                    ref = None
+                out.append(("wv: dw 1\n" + libtxt + "\n" + body + "\nhlt\n", ref))
     return out
 
 # ------------------------------------------------------------------------------------------------
